@@ -19,12 +19,16 @@ static void gen_matrix(Draw &d, int n, int p, int opt, bool allow_missing, M &X,
     for (int i = 0; i < n; i++) col[i] = constant ? offset : offset + spread * (double)z[i] / 500.0;
     // missing cells: up to 20 %, every column keeps >= 2 observed cells
     std::vector<char> miss(n, 0);
+    bool sparse = false;
     if (allow_missing && n >= 3) {
       int maxm = std::min(n - 2, std::max(1, n / 5));
       int km = (int)d.i(0, maxm);
       for (int t = 0; t < km; t++) { int i = (t == 0 && d.coin(40)) ? 0 : (int)d.i(0, n - 1); miss[i] = 1; }
     }
-    if (!constant) {
+    // a column with one observed cell, or none (short matrices: still within 20 % of the cells when there are enough columns)
+    if (allow_missing && n <= 6 && d.coin(10)) { sparse = true; int keep = d.coin(70) ? (int)d.i(0, n - 1) : -1; for (int i = 0; i < n; i++) miss[i] = (i != keep); }
+    if (sparse) { nzero++; }
+    else if (!constant) {
       // enforce the domain on the observed cells
       ld s = 0; int cnt = 0; for (int i = 0; i < n; i++) if (!miss[i]) { s += col[i]; cnt++; }
       ld mu = s / cnt, ss = 0; for (int i = 0; i < n; i++) if (!miss[i]) ss += (col[i] - mu) * (col[i] - mu);
@@ -33,10 +37,13 @@ static void gen_matrix(Draw &d, int n, int p, int opt, bool allow_missing, M &X,
         if (sd == 0) { for (int i = 0, k = 0; i < n; i++) if (!miss[i]) { col[i] = offset + ((k++ % 2) ? 0.5 : -0.5); } }
         else { double f = (double)(0.05L / sd); for (int i = 0; i < n; i++) col[i] = (double)(mu + (col[i] - mu) * f); }
       }
-      if (opt == 5) {   // level scaling divides by the mean: keep |mean| >= 0.02
+      if (opt == 5) {   // level scaling divides by the mean: keep |mean| >= 0.02 ...
         s = 0; for (int i = 0; i < n; i++) if (!miss[i]) s += col[i];
         mu = s / cnt;
-        if (fabsl(mu) < 0.03L) for (int i = 0; i < n; i++) col[i] += 1.0;
+        if (d.coin(12)) {   // ... except for a share of columns on a tiny level (|mean| in [0.002, 0.009], spread unchanged): still a valid scaling factor
+          double target = (d.coin(50) ? 1 : -1) * d.real(0.002, 0.009);
+          for (int i = 0; i < n; i++) col[i] = (double)(col[i] - mu + target);
+        } else if (fabsl(mu) < 0.03L) for (int i = 0; i < n; i++) col[i] += 1.0;
       }
     } else {
       nzero++;
@@ -107,6 +114,7 @@ static void check_fit(const M &X, int opt, matrix *lx, dvector *avg, dvector *sc
     if (P.scale[j] == 0) continue;
     ld s = 0, tmax = 0, tsum = 0; int cnt = 0;
     for (int i = 0; i < n; i++) if (!is_missing(X(i, j))) { s += tr->data[i][j]; cnt++; tmax = std::max(tmax, cell_tol(X, P, b, i, j)); tsum += fabsl(tr->data[i][j]); }
+    if (cnt == 0) continue;   // a column without observed cells has no statistics
     ld mean = s / cnt;
     VF_CHECK(fabsl(mean) <= tmax + 64 * cnt * EPS * tsum / cnt, "%s: transformed column %d has mean %Lg (tol %Lg), option %d", who, j, mean, tmax, opt);
     if (opt == 1 && cnt >= 2) {
@@ -154,6 +162,16 @@ static void pred_matrixcase(const Case &c) {
   for (int i = 0; i < n; i++) for (int j = 0; j < p; j++)
     VF_CHECK(lx->data[i][j] == (double)X(i, j), "MatrixPreprocess modified its input at (%d,%d)", i, j);
   check_fit(X, opt, lx, avg, scl, tr, "MatrixPreprocess(fit)");
+  // the transform is a function of the input: an output container that already holds values gives the same matrix, cell by cell
+  // (also at missing-coded cells, whatever the library chooses to put there)
+  if (opt >= 0) {
+    matrix *ts; NewMatrix(&ts, n, p); MatrixSet(ts, 777.0);
+    dvector *a2, *s2; initDVector(&a2); initDVector(&s2);
+    MatrixPreprocess(lx, opt, a2, s2, ts);
+    for (int i = 0; i < n; i++) for (int j = 0; j < p; j++)
+      VF_CHECK(ts->data[i][j] == tr->data[i][j], "MatrixPreprocess(fit) into a re-used output differs from the fresh one at (%d,%d)%s: %.17g vs %.17g (option %d)", i, j, is_missing(X(i, j)) ? " [missing-coded cell]" : "", ts->data[i][j], tr->data[i][j], opt);
+    DelMatrix(&ts); DelDVector(&a2); DelDVector(&s2);
+  }
   // the individual statistic functions with missing cells
   if (opt >= 0) {
     Prep P1 = ref_preprocess(X, 1), P2 = ref_preprocess(X, 2), P4 = ref_preprocess(X, 4);
@@ -178,7 +196,10 @@ static void pred_matrixcase(const Case &c) {
     VF_CHECK((int)tr2->row == n && (int)tr2->col == p, "apply path: shape %s", dims(tr2).c_str());
     Prep P = ref_preprocess(X, opt); Bounds b = bounds(X, P, opt);
     for (int i = 0; i < n; i++) for (int j = 0; j < p; j++) {
-      if (is_missing(X(i, j))) continue;
+      if (is_missing(X(i, j))) {   // "reproduces the training transform": also where the training matrix carries the missing code
+        VF_CHECK(tr2->data[i][j] == tr->data[i][j], "apply path differs from fit path at the missing-coded cell (%d,%d) option %d: %.17g vs %.17g", i, j, opt, tr2->data[i][j], tr->data[i][j]);
+        continue;
+      }
       ld tol = 2 * cell_tol(X, P, b, i, j);
       if (!(fabsl((ld)tr2->data[i][j] - tr->data[i][j]) <= tol))
         fail(fmt("apply path differs from fit path at (%d,%d) option %d: %.17g vs %.17g", i, j, opt, tr2->data[i][j], tr->data[i][j]));
